@@ -238,6 +238,15 @@ func redactCommand(cmd *orderedmap.OrderedMap[string, any], shouldEagerRedact bo
 			}
 		}
 	}
+	if explain, ok := cmd.Get("explain"); ok {
+		if explainMap, ok := explain.(*orderedmap.OrderedMap[string, any]); ok {
+			// explain wraps the explained command: same members, one level down
+			redactCommand(explainMap, shouldEagerRedact)
+			if redactNamespaces {
+				redactNamespace(explainMap)
+			}
+		}
+	}
 	if pipeline, ok := cmd.Get("pipeline"); ok {
 		if pipelineArr, ok := pipeline.([]any); ok {
 			newPipeline := make([]any, len(pipelineArr))
